@@ -168,6 +168,63 @@ func Gen(r *rand.Rand, tok string) string {
 		return rs(r, lower, 1+r.Intn(5)) + " from"
 	case "<evil.quote>":
 		return rs(r, lower, 1+r.Intn(3)) + "\"'\\" + rs(r, lower, 1+r.Intn(3)) + "\t;"
+	case "<evil.preauth>":
+		return []string{
+			rs(r, lower, 1+r.Intn(4)) + " [preauth]",
+			rs(r, lower, 1+r.Intn(4)) + " from " + ipv4(r) + " port " + strconv.Itoa(1+r.Intn(65535)) + " [preauth]",
+			rs(r, lower, 1+r.Intn(4)) + " from " + ipv4(r) + " port " + strconv.Itoa(1+r.Intn(65535)) + " ssh2 [preauth]",
+			"[preauth] " + rs(r, lower, 1+r.Intn(4)),
+		}[r.Intn(4)]
+	case "<evil.dict>":
+		// random walk over the literal fragments of the grammar
+		frag := []string{" from ", " port ", " ssh2", " [preauth]", ": ", "invalid user ", "Invalid user ", "Failed password for ",
+			"maximum authentication attempts exceeded for ", "Accepted publickey for ", "Accepted password for ", "User ",
+			" not allowed because ", "not listed in AllowUsers", "ROOT LOGIN REFUSED FROM ", "Authentication key ",
+			" revoked by file ", "Error checking authentication key ", " in revoked keys file ", "Certificate invalid: ",
+			"Authentication refused for ", ": bad owner or modes for ", "Nasty PTR record \"", "\" is set up for ", ", ignoring",
+			"Address ", " maps to ", ", but this does not map back to the address.", " ID ", " (serial ", ") CA ", "error: ",
+			"Disconnecting: ", "sshd[1]: ", " ", "  "}
+		var sb strings.Builder
+		for i, n := 0, 2+r.Intn(6); i < n; i++ {
+			switch r.Intn(5) {
+			case 0:
+				sb.WriteString(ipv4(r))
+			case 1:
+				sb.WriteString(strconv.Itoa(r.Intn(70000)))
+			case 2:
+				sb.WriteString(rs(r, lower, 1+r.Intn(5)))
+			default:
+				sb.WriteString(frag[r.Intn(len(frag))])
+			}
+		}
+		n := sb.String()
+		if len(n) > 100 {
+			n = n[:100]
+		}
+		return n
+	case "<evil.form>":
+		// a complete message of another form as the user name (sshd prints at most 100 bytes of it)
+		forms := []string{
+			"Authentication key RSA SHA256:" + rs(r, b64, 8) + " revoked by file /etc/ssh/revoked",
+			"Error checking authentication key RSA SHA256:" + rs(r, b64, 6) + " in revoked keys file /etc/r",
+			"ROOT LOGIN REFUSED FROM " + ipv4(r) + " port " + strconv.Itoa(1+r.Intn(65535)),
+			"Accepted password for root from " + ipv4(r) + " port 22 ssh2",
+			"Accepted publickey for root from " + ipv4(r) + " port 22 ssh2: RSA SHA256:" + rs(r, b64, 10),
+			"User root from " + ipv4(r) + " not allowed because not listed in AllowUsers",
+			"Invalid user x from " + ipv4(r) + " port 5",
+			"Failed password for x from " + ipv4(r) + " port 5 ssh2",
+			"maximum authentication attempts exceeded for x from " + ipv4(r) + " port 5 ssh2",
+			"Certificate invalid: expired",
+			"Nasty PTR record \"x\" is set up for " + ipv4(r) + ", ignoring",
+			"Address " + ipv4(r) + " maps to a.b, but this does not map back to the address.",
+			"reverse mapping checking getaddrinfo for a.b [" + ipv4(r) + "] failed.",
+			"Authentication refused for x: bad owner or modes for /home/x",
+		}
+		n := forms[r.Intn(len(forms))]
+		if len(n) > 100 {
+			n = n[:100]
+		}
+		return n
 	case "<evil.empty>":
 		return ""
 	case "<noise.nul>":
@@ -406,27 +463,10 @@ func Deliver(mode Mode, pid, line string, pad int) Obs {
 	<-done
 
 	for i, raw := range enc.Raw {
-		var m map[string]any
-		_ = json.Unmarshal(raw, &m)
-		var e auditevent.AuditEvent
-		_ = json.Unmarshal(raw, &e)
-		if e.LoggedAt.Before(before.Add(-time.Millisecond)) || e.LoggedAt.After(after.Add(time.Millisecond)) {
-			obs.TsOK = false
-		}
-		if !reflect.DeepEqual(e.Target, map[string]string{"host": NodeName, "machine-id": MachineID}) {
-			obs.TgtOK = false
-		}
-		if e.Metadata.AuditID == "" {
-			obs.IDOK = false
-		}
-		delete(m, "loggedAt")
-		delete(m, "target")
-		if md, ok := m["metadata"].(map[string]any); ok {
-			delete(md, "auditId")
-			if len(md) == 0 {
-				delete(m, "metadata")
-			}
-		}
+		m, tsok, tgtok, idok := Normalize(raw, before, after)
+		obs.TsOK = obs.TsOK && tsok
+		obs.TgtOK = obs.TgtOK && tgtok
+		obs.IDOK = obs.IDOK && idok
 		// substring check of extracted values (against the line as JSON renders it:
 		// every invalid byte becomes U+FFFD)
 		lb, _ := json.Marshal(line)
@@ -462,6 +502,26 @@ func Deliver(mode Mode, pid, line string, pad int) Obs {
 	return obs
 }
 
+// Normalize decodes a written event and strips what is environment specific
+// (timestamp, audit id, target), reporting whether those were as configured.
+func Normalize(raw []byte, before, after time.Time) (m map[string]any, tsok, tgtok, idok bool) {
+	_ = json.Unmarshal(raw, &m)
+	var e auditevent.AuditEvent
+	_ = json.Unmarshal(raw, &e)
+	tsok = before.IsZero() || !(e.LoggedAt.Before(before.Add(-time.Millisecond)) || e.LoggedAt.After(after.Add(time.Millisecond)))
+	tgtok = reflect.DeepEqual(e.Target, map[string]string{"host": NodeName, "machine-id": MachineID})
+	idok = e.Metadata.AuditID != ""
+	delete(m, "loggedAt")
+	delete(m, "target")
+	if md, ok := m["metadata"].(map[string]any); ok {
+		delete(md, "auditId")
+		if len(md) == 0 {
+			delete(m, "metadata")
+		}
+	}
+	return m, tsok, tgtok, idok
+}
+
 // Rec is one line of the recorded trace.
 type Rec struct {
 	K       string          `json:"k"`
@@ -477,13 +537,14 @@ type Rec struct {
 	Ctr     json.RawMessage `json:"counter"`
 	Direct  *Obs            `json:"direct,omitempty"`
 	Framed  *Obs            `json:"framed,omitempty"`
+	Fifo    *FifoObs        `json:"fifo,omitempty"`
 	Pad     int             `json:"pad"`
 	Vec     int             `json:"vec"`
 	Conc    int             `json:"conc"`
 }
 
 // Run concretises a vector and delivers it.
-func Run(v *Vector, r *rand.Rand, vecIdx, conc int, framed bool) Rec {
+func Run(v *Vector, r *rand.Rand, vecIdx, conc int, framed bool, fifo **FifoSession, fifoDir string) Rec {
 	s := NewSubst(r, v)
 	pidtok := v.PidTok
 	if pidtok == "" {
@@ -512,6 +573,19 @@ func Run(v *Vector, r *rand.Rand, vecIdx, conc int, framed bool) Rec {
 		!strings.ContainsAny(pid, " \n") && pid != "" {
 		f := Deliver(Framed, pid, line, rec.Pad)
 		rec.Framed = &f
+		if fifo != nil {
+			if *fifo == nil {
+				*fifo, _ = NewFifoSession(fifoDir)
+			}
+			if *fifo != nil {
+				fo, ok := (*fifo).Deliver(pid, line, rec.Pad)
+				rec.Fifo = &fo
+				if !ok {
+					(*fifo).Close()
+					*fifo = nil
+				}
+			}
+		}
 	}
 	// keep the trace small: very long lines are recorded by prefix only (TLC only
 	// looks at the beginning of the line, for the keyword test)
